@@ -1234,6 +1234,12 @@ func boundedByExistingData(pv *prover, mk *ssa.MakeSlice, facts []Atom) (bool, s
 			}
 		case *ssa.Convert:
 			walk(x.X, d+1)
+		case *ssa.Call:
+			if bi, ok := x.Common().Value.(*ssa.Builtin); ok && (bi.Name() == "min" || bi.Name() == "max") {
+				for _, a := range x.Common().Args {
+					walk(a, d+1)
+				}
+			}
 		}
 	}
 	for _, sz := range sizes {
